@@ -516,6 +516,46 @@ func initLib() {
 		arr := tSelect(vc.heapGet(st.heap, vc.arrComp(types.Typ[types.Uint8])), mk("(sl-ref "+s.S+")", sortRef))
 		return vc.bytesOf(arr, mk("(sl-off "+s.S+")", vc.idxSort()), mk("(sl-len "+s.S+")", vc.idxSort()))
 	}
+	// ---- encoding/binary ByteOrder.PutUintN: writes the N/8 bytes of v at b[0:N/8] (panics when b is shorter).
+	for _, e := range []struct {
+		recv string
+		big  bool
+	}{{"bigEndian", true}, {"littleEndian", false}} {
+		for _, bits := range []int{16, 32, 64} {
+			e, bits := e, bits
+			name := fmt.Sprintf("(encoding/binary.%s).PutUint%d", e.recv, bits)
+			libTable[name] = func(vc *VC, fr *Frame, st *State, a []Val, at []types.Type, rt types.Type, pos token.Pos) Val {
+				vc.usedLib("binary." + e.recv + fmt.Sprintf(".PutUint%d", bits))
+				n := bits / 8
+				is := vc.idxSort()
+				d := a[1].T
+				dRef, dOff, dLen := mk("(sl-ref "+d.S+")", sortRef), mk("(sl-off "+d.S+")", is), mk("(sl-len "+d.S+")", is)
+				vc.oblige(st, fr, "safe.index", fmt.Sprintf("PutUint%d", bits), vc.idxLe(vc.idxLit(int64(n)), dLen), fmt.Sprintf("PutUint%d needs %d bytes", bits, n), pos)
+				comp := vc.arrComp(types.Typ[types.Uint8])
+				h := vc.heapGet(st.heap, comp)
+				arr := tSelect(h, dRef)
+				v := vc.define("put!v", a[2].T)
+				for k := 0; k < n; k++ {
+					sh := k // little endian: byte k is bits 8k..8k+7
+					if e.big {
+						sh = n - 1 - k
+					}
+					var bt Term
+					if vc.mode == ModeBV {
+						bt = mk(fmt.Sprintf("((_ extract %d %d) %s)", sh*8+7, sh*8, v.S), vc.intSort(8))
+					} else {
+						bt = mk(fmt.Sprintf("(mod (div %s %s) 256)", v.S, pow2(uint(sh*8))), vc.intSort(8))
+					}
+					arr = tStore(arr, vc.idxAdd(dOff, vc.idxLit(int64(k))), bt)
+				}
+				na := vc.define("put!res", arr)
+				vc.pendingRef = dRef.S
+				vc.heapSet(st, comp, vc.define(comp, tStore(h, dRef, na)))
+				vc.pendingRef = ""
+				return Val{}
+			}
+		}
+	}
 	libTable["bytes.Compare"] = func(vc *VC, fr *Frame, st *State, a []Val, at []types.Type, rt types.Type, pos token.Pos) Val {
 		vc.usedLib("bytes.Compare")
 		r := vc.freshVal(st, "bcmp", rt)
